@@ -44,6 +44,11 @@ RangeOk(c, vals, rg) ==
   /\ StrictlyIncreasing(rg.rows)
   /\ SeqSet(rg.rows) = {r - 1 : r \in {x \in 1..c.nrows : \E i \in (c.off[x] + 1)..c.off[x + 1] : rg.lo <= vals[i] /\ vals[i] < rg.hiu}}
 
+\* ExistsQuery: exactly the rows that hold at least one value, in increasing order
+ExistsOk(c, q) ==
+  /\ StrictlyIncreasing(q.rows)
+  /\ SeqSet(q.rows) = {r - 1 : r \in {x \in 1..c.nrows : c.off[x] < c.off[x + 1]}}
+
 SrcTables == IF Ident THEN {Ev.t} ELSE {Ev.rows[r][1] : r \in 1..Len(Ev.rows)}
 \* classes of the numerical values recorded under this key in the tables this columnar comes from
 ClassesOf(key) == UNION {IF key \in DOMAIN tables[t].cols THEN SeqSet(tables[t].cols[key].classes) ELSE {} : t \in SrcTables}
@@ -87,7 +92,8 @@ TRead ==
            IN IF Has(q, "error") \/ Has(q, "panic") THEN TRUE
               ELSE IF cs = {} THEN q.rows # <<>>
               ELSE LET c == Ev.cols[CHOOSE i \in cs : TRUE] IN
-                   IF Has(c, "flat") THEN ~RangeOk(c, c.flat, q) ELSE FALSE} = {})
+                   IF Has(q, "exists") THEN ~ExistsOk(c, q)
+                   ELSE IF Has(c, "flat") THEN ~RangeOk(c, c.flat, q) ELSE FALSE} = {})
 
 TEnd == Ev.ev = "end" /\ UNCHANGED <<tables, cvars>>
 
